@@ -39,6 +39,12 @@ else:
   import contextlib
   _vf_untraced = contextlib.nullcontext
 
+def _pick(x, lo, hi):
+  """Concrete value of a bounded symbolic int through ordinary branches (one path per value)."""
+  for v in range(lo, hi):
+    if x == v: return v
+  return hi
+
 class Key:
   """Cache key whose equality is that of a (symbolic) int and whose hash is constant (a valid hash): the dict
   inside LruCache then decides membership through __eq__, so z3 reasons about the equality pattern between the
@@ -438,7 +444,8 @@ def gen(p):
     nleaf = min(em.leaves, p['flag_leafvars'])
     params, pre = _params(nleaf, em.idx, em.flags, True, lo2, hi2)
     pres = [pre, f'not ({em.conflict} and lz)']
-    real = '; '.join(f'{v} = _vf_real({v})' for v in [f'x{j}' for j in range(nleaf)] + [f'i{j}' for j in range(em.idx)] + em.flags + ['lz'])
+    real = '; '.join([f'x{j} = _pick(x{j}, {lo2}, {hi2})' for j in range(nleaf)] + [f'i{j} = _pick(i{j}, 0, 1)' for j in range(em.idx)]
+                     + [f'{v} = True if {v} else False' for v in em.flags + ['lz']])
     A(F(f'ob_pickle_{name(t)}', params, pres, f"""
       {real}
       tree = {src}
